@@ -31,6 +31,9 @@ SIG = {
     # stream ciphers: data xor key stream of (alg, key, nonce) starting at byte position `pos`
     'stream': {'sort': 'bytes', 'uf': True, 'facts': ['len(result) == len(data)', 'spec.modes.stream(alg, key, nonce, pos, result) == data']},
     'hchacha20': {'sort': 'bytes', 'uf': True, 'facts': ['len(result) == 32']},
+    # bytewise xor of two equally long strings (src/strxor.c); xor_c: every byte xored with the constant c
+    'xor': {'sort': 'bytes', 'uf': True, 'facts': ['len(result) == len(a)', 'len(a) == len(b) ==> spec.modes.xor(result, b) == a']},
+    'xor_c': {'sort': 'bytes', 'uf': True, 'facts': ['len(result) == len(a)', 'spec.modes.xor_c(result, c) == a']},
     'key_len_ok': 'bool', 'ctr_block': 'bytes', 'ctr_limit': 'int[nat]', 'odd_parity': 'int[nat]', 'des_parity': 'bytes',
     'tdes_key_ok': 'bool', 'chacha_blocks': 'int[nat]', 'cfb_segment_ok': 'bool', 'le_digits': 'bytes', 'be_digits': 'bytes',
     'ctr_block_digits': 'bytes', 'odd_parity_fold': 'int[nat]',
@@ -75,6 +78,50 @@ def stream(alg, key, nonce, pos, data):
 
 def hchacha20(key, nonce16):
     return uf_only()
+
+
+def xor(a, b):
+    return uf_only()
+
+
+def xor_c(a, c):
+    return uf_only()
+
+
+def lemma_del(sp):
+    """ghost driver (contracts/rawapi.py): the pointer a SmartPointer holds when it is destroyed"""
+    p = sp._raw_pointer
+    sp.__del__()
+    sp.__del__()
+    return p
+
+
+def lemma_inplace_encrypt(obj, buf):
+    """ghost driver: encryption in place (the output buffer is the input buffer itself)"""
+    return obj.encrypt(buf, output=buf)
+
+
+def lemma_inplace_decrypt(obj, buf):
+    return obj.decrypt(buf, output=buf)
+
+
+def lemma_roundtrip(enc, dec, m):
+    """ghost driver: a message encrypted by one object and decrypted by another object with the same parameters"""
+    return dec.decrypt(enc.encrypt(m))
+
+
+def lemma_release(sp):
+    """ghost driver: (the pointer held before, what release() returns)"""
+    p = sp._raw_pointer
+    q = sp.release()
+    return (p, q)
+
+
+def lemma_release_del(sp):
+    """ghost driver: release() hands the pointer out; destroying the SmartPointer afterwards must not free it"""
+    p = sp.release()
+    sp.__del__()
+    return p
 
 
 # ------------------------------------------------------------------------------------------------ mode table
